@@ -59,13 +59,19 @@ struct Rng {
 // ---------------------------------------------------------------------------
 // limits
 
-constexpr int MAXC = 48;      // classes per registry
+constexpr int MAXC = 96;      // classes per registry
 constexpr int MAXALIAS = 3;   // type ids per class
-constexpr int MAXDEF = 12;    // definitions per method
+constexpr int MAXDEF = 12;    // definitions per method (ordinary methods)
+constexpr int MAXDEF_BIG = 72; // ... for the two "big" method objects: more than 64 definitions (masks wider than one word)
 constexpr int MAXAR = 4;      // virtual parameters per method
 constexpr int MAXPARAM = 6;   // parameters per method
-constexpr int MAXREC = 256;   // class registration records
+constexpr int MAXREC = 512;   // class registration records
 constexpr int NINST = 3;      // method instances per shape
+
+// shapes "R" (index 0) and "RC" (index 6), instance 0, have MAXDEF_BIG definition bodies
+inline int max_defs_of(int shape, int inst) {
+    return inst == 0 && (shape == 0 || shape == 6) ? MAXDEF_BIG : MAXDEF;
+}
 
 // ---------------------------------------------------------------------------
 // carrier classes: one C++ class plays any number of run-time classes through
@@ -288,6 +294,7 @@ struct GenProfile {
     bool lattice_bias = false; // favour multiple inheritance
     bool abstract_flags = false;
     bool complete_presentation = false; // every record lists all transitive bases + self
+    bool big = false;                   // > 64 classes / slots / definitions (bitsets wider than a word)
     int max_tuples = 4096;
     uint32_t shape_mask = 0xffffffffu; // allowed shapes
 };
